@@ -333,7 +333,7 @@ def rewriter_rules(ctx, rule, fi, nfields_src, offsets_name, minmax, src_handles
     ctx.ok(f"{rule}.H-COPY", site, "lines up to the FabOnDisk table are copied one-for-one (all sources advanced in "
                                    "lock-step), field count replaced, one FabOnDisk line per offset", key="structure")
     # FabOnDisk rewriting: tokens[:-1] of the source line + str(new offset)
-    fab_ok = _fab_line_rule(fi, offsets_name)
+    fab_ok = _fab_line_rule(fi, offsets_name, src_handles[0])
     ctx.check(fab_ok, f"{rule}.H-COPY", site,
               "each FabOnDisk line keeps `FabOnDisk: file` of the source line and gets the box's new offset "
               "(offsets[0] for the first, then offsets[1:] in order)",
@@ -341,7 +341,7 @@ def rewriter_rules(ctx, rule, fi, nfields_src, offsets_name, minmax, src_handles
     minmax(ctx, rule, fi, rest, desc)
 
 
-def _fab_line_rule(fi, offsets_name):
+def _fab_line_rule(fi, offsets_name, h0=None):
     """V = L.split()[:-1]; V.append(str(X)); write(' '.join(V) + '\n') with X = offsets[0] for the first FabOnDisk line
     and the loop variable over offsets[1:] for the others; V and L may have any name, L is the line just read"""
     loopvars = [norm(n.target) for n in walk_no_nested(fi.node) if isinstance(n, ast.For)
@@ -377,11 +377,25 @@ def _fab_line_rule(fi, offsets_name):
             src = direct
             if mt:
                 line = mt.group(1)
-                # the line variable is the line most recently read from a source
+                # the line variable is the line most recently read from a source — the *first* source (the plotfile
+                # whose layout the output follows): every binding of it to a readline() reads that handle
+                reads = []
                 for blk2 in _blocks(fi.node):
                     for m in blk2:
-                        if isinstance(m, ast.Assign) and norm(m.targets[0]) == line and norm(m.value).endswith(".readline()"):
-                            src = m
+                        if not isinstance(m, ast.Assign):
+                            continue
+                        pairs = []
+                        if isinstance(m.targets[0], (ast.Tuple, ast.List)) and isinstance(m.value, (ast.Tuple, ast.List)) \
+                                and len(m.targets[0].elts) == len(m.value.elts):
+                            pairs = list(zip(m.targets[0].elts, m.value.elts))
+                        else:
+                            pairs = [(m.targets[0], m.value)]
+                        for tg, vv in pairs:
+                            if norm(tg) == line and norm(vv).endswith(".readline()"):
+                                src = m
+                                reads.append(norm(vv)[:-len(".readline()")])
+                if h0 is not None and any(r != h0 for r in reads):
+                    return False
             forms = {norm(ast.parse(t, mode="eval").body) for t in
                      ("' '.join(%s) + '\\n'" % v, "f\"{' '.join(%s)}\\n\"" % v)}
             if src is None or len(wr.args) != 1 or norm(wr.args[0]) not in forms:
